@@ -23,8 +23,8 @@ static const profile_t PROFILES[] = {
       0, 0, (1u << P_T) | (1u << P_MOD_STOPPED), (1u << T_T) },
     { "C15", 2, G_REG | G_LIFE | G_MSG | G_SUB | G_PILL | G_ARM | G_ILLEGAL | G_QUIT,       RL_BASE | R_PS | R_NM,              1, "01000100", 1, 0, 0x7f,
       (1u << A_CTXCALL) | (1u << A_PUB) | (1u << A_SUB) | (1u << A_TELL), 0xf, (1u << P_T), (1u << T_T) | (1u << T_MOD_STARTED) | (1u << T_CTX_TICK) },
-    { "C16", 2, G_MSG | G_STASH | G_ARM | G_LIFE | G_BECOME | G_SUB | G_PRIO,                RL_BASE | R_PS | R_SH | R_HD,       3, "01000100" "07000100" "07010100" "04000000", 1, 0, 1,
-      (1u << A_STASH) | (1u << A_UNSTASH), (1u << CB_EVT), (1u << P_T), (1u << T_T) },
+    { "C16", 2, G_MSG | G_STASH | G_ARM | G_LIFE | G_BECOME | G_SUB | G_PRIO | G_SRC | G_READY, RL_BASE | R_PS | R_SH | R_HD,     3, "01000100" "07000100" "07010100" "04000000", 1, 0, 1,
+      (1u << A_STASH) | (1u << A_UNSTASH), (1u << CB_EVT), (1u << P_T), (1u << T_T), (1u << K_FD), 1 },
     { "C17", 2, G_MSG | G_BECOME | G_ARM | G_LIFE | G_STASH,                                 RL_BASE | R_PS | R_HD | R_SH,       2, "01000100" "07000100" "07010100" "04000000", 1, 0, 1,
       (1u << A_BECOME) | (1u << A_UNBECOME) | (1u << A_STASH), (1u << CB_EVT), 0, 0 },
     { "C19", 2, G_REG | G_LIFE | G_SUB | G_QUIT | G_TICK | G_ENV | G_PILL,                   RL_BASE | R_PS | R_SY | R_EV,       0, "01000100", 1 | 4, 1, 1,
